@@ -32,9 +32,11 @@ var solvers = []solverSpec{
 	}, "cvc5"},
 }
 
-func (e *Enc) queryText(o *Obl, forCvc5 bool) string {
+func (e *Enc) queryText(o *Obl, forCvc5 bool, fmode string) string {
 	var sb strings.Builder
 	pre := e.m.fullPrelude() + extPrelude
+	srt, ops := floatPrelude(fmode)
+	pre = strings.Replace(strings.Replace(pre, "@@F64SORT@@", srt, 1), "@@F64OPS@@", ops, 1)
 	if forCvc5 {
 		var keep []string
 		for _, l := range strings.Split(pre, "\n") {
@@ -121,11 +123,25 @@ func (e *Enc) solveAll(obls []*Obl, opt solveOpts) {
 }
 
 func (e *Enc) solveOne(o *Obl, opt solveOpts, idx int) {
-	base := filepath.Join(opt.dir, fmt.Sprintf("%s_%d", sanitize(o.Name), idx))
-	q := e.queryText(o, false)
+	// float64 encoding: uninterpreted first (fast, sound), IEEE FloatingPoint when that does not prove it
+	e.solveMode(o, opt, idx, "uf")
+	if o.Status == "unsat" || o.Smoke {
+		return
+	}
+	ufStatus, ufOut := o.Status, o.Output
+	e.solveMode(o, opt, idx, "fp")
+	if o.Status != "unsat" {
+		o.Output = "[float64 uninterpreted] " + ufStatus + "\n" + ufOut + "[float64 IEEE] " + o.Status + "\n" + o.Output
+	}
+}
+
+func (e *Enc) solveMode(o *Obl, opt solveOpts, idx int, fmode string) {
+	base := filepath.Join(opt.dir, fmt.Sprintf("%s_%d_%s", sanitize(o.Name), idx, fmode))
+	q := e.queryText(o, false, fmode)
 	f := base + ".smt2"
 	os.WriteFile(f, []byte(q), 0o644)
 	o.Query = f
+	o.Status, o.Output, o.Solver = "", "", ""
 	var total int64
 	tmo := opt.timeoutS
 	if o.Smoke {
@@ -138,13 +154,16 @@ func (e *Enc) solveOne(o *Obl, opt solveOpts, idx int) {
 				continue
 			}
 			file = base + ".cvc5.smt2"
-			os.WriteFile(file, []byte(e.queryText(o, true)), 0o644)
+			os.WriteFile(file, []byte(e.queryText(o, true, fmode)), 0o644)
 		}
 		st, out, ms := runSolver(s, file, tmo, opt.seed)
 		total += ms
 		o.Output += fmt.Sprintf("[%s] %s (%d ms)\n", s.name, strings.TrimSpace(firstLines(out, 3)), ms)
 		if st == "unsat" || st == "sat" {
-			o.Status, o.Solver, o.Ms = st, s.name, total
+			o.Status, o.Solver, o.Ms = st, s.name, o.Ms+total
+			if fmode == "fp" {
+				o.Solver += " (IEEE floats)"
+			}
 			if !opt.keep && st == "unsat" && !o.Smoke {
 				os.Remove(f)
 				os.Remove(base + ".cvc5.smt2")
@@ -158,7 +177,7 @@ func (e *Enc) solveOne(o *Obl, opt solveOpts, idx int) {
 			break
 		}
 	}
-	o.Ms = total
+	o.Ms += total
 	if o.Status == "" {
 		o.Status = "unknown"
 	}
